@@ -946,6 +946,9 @@ static void MPSreadRows(MPSInput& mps, LPRowSetBase<Rational>& rset, NameSet& rn
          return;
       }
 
+      if((mps.field1() == nullptr) || (mps.field2() == nullptr))
+         break;
+
       if(*mps.field1() == 'N')
       {
          if(*mps.objName() == '\0')
@@ -1384,6 +1387,10 @@ static void MPSreadBounds(MPSInput& mps, LPColSetBase<Rational>& cset, const Nam
 
          return;
       }
+
+      // a line that consists of a fixed-format '$' comment only has no fields at all
+      if(mps.field1() == nullptr)
+         break;
 
       // Is the value field used ?
       if((!strcmp(mps.field1(), "LO"))
